@@ -86,8 +86,16 @@ fn dot_consistent(h: &B) -> Result<(), String> {
     Ok(())
 }
 
-pub fn check_history(opsv: &[Op], mut st: Option<&mut Stats>) -> Check {
-    let case = json!({"kind": "history", "ops": ops::ops_to_json(opsv)});
+pub fn check_history(opsv: &[Op], st: Option<&mut Stats>) -> Check {
+    check_history_keep(opsv, 0, st)
+}
+
+/// `keep` = 0: every handle stays alive (and is re-inspected) for the whole history.
+/// `keep` = k > 0: the caller drops every handle older than k steps; when a later operation
+/// needs such a result again it is rebuilt in the same environment from its truth table
+/// (a user who lets diagrams go out of scope and continues to use the environment).
+pub fn check_history_keep(opsv: &[Op], keep: usize, mut st: Option<&mut Stats>) -> Check {
+    let case = json!({"kind": "history", "ops": ops::ops_to_json(opsv), "keep": keep});
     if !ops::well_formed(opsv) {
         return Err(Violation::new("HARNESS: malformed history", case));
     }
@@ -97,10 +105,34 @@ pub fn check_history(opsv: &[Op], mut st: Option<&mut Stats>) -> Check {
         let ids: Vec<usize> = (0..ops::K).collect();
         let env: BDDEnv<usize> = BDDEnv::new();
         let mut pool: Vec<B> = Vec::new();
+        let mut alive: Vec<bool> = Vec::new();
         let mut tabs: Vec<TT> = Vec::new();
         let mut snaps: Vec<B> = Vec::new();
         let full_every = if opsv.len() > 80 { 16 } else { 1 };
         for (i, op) in opsv.iter().enumerate() {
+            if keep > 0 {
+                // drop old handles; rebuild the operands this step needs
+                let placeholder_needed: Vec<usize> = (0..i).filter(|j| alive[*j] && i - j > keep).collect();
+                for j in placeholder_needed {
+                    alive[j] = false;
+                }
+                for j in op.operands() {
+                    if !alive[j] {
+                        pool[j] = plain::intern(&env, &tabs[j], &ids);
+                        snaps[j] = plain::deep_clone(&pool[j]);
+                        alive[j] = true;
+                    }
+                }
+                // dead slots must not keep any node alive
+                let dead: Vec<usize> = (0..i).filter(|j| !alive[*j]).collect();
+                if !dead.is_empty() {
+                    let ph: B = Rc::new(BDD::False);
+                    for j in dead {
+                        pool[j] = Rc::clone(&ph);
+                        snaps[j] = Rc::clone(&ph);
+                    }
+                }
+            }
             let what = format!("step {} {}", i, op.to_json());
             if op.operands().iter().any(|j| i - j > 5) {
                 old_reuse += 1;
@@ -180,6 +212,7 @@ pub fn check_history(opsv: &[Op], mut st: Option<&mut Stats>) -> Check {
             snaps.push(plain::deep_clone(&res));
             tabs.push(t);
             pool.push(res);
+            alive.push(true);
 
             // (c) every earlier handle still has its table and structure
             let check_all = i % full_every == 0 || i + 1 == opsv.len();
@@ -189,6 +222,9 @@ pub fn check_history(opsv: &[Op], mut st: Option<&mut Stats>) -> Check {
                 op.operands()
             };
             for j in range {
+                if !alive[j] {
+                    continue;
+                }
                 if pool[j].as_ref() != snaps[j].as_ref() {
                     return Err(v(format!(
                         "after {}: handle {} changed from {} to {}",
@@ -207,12 +243,13 @@ pub fn check_history(opsv: &[Op], mut st: Option<&mut Stats>) -> Check {
             }
             // (d) environment invariants
             if check_all {
-                env_invariants(&env, &pool).map_err(|e| v(format!("after {}: {}", what, e)))?;
+                let live: Vec<B> = pool.iter().zip(alive.iter()).filter(|(_, a)| **a).map(|(h, _)| Rc::clone(h)).collect();
+                env_invariants(&env, &live).map_err(|e| v(format!("after {}: {}", what, e)))?;
             }
         }
         // (e) exported node identities are consistent for every handle
         for (j, h) in pool.iter().enumerate() {
-            if j % 3 == 0 || j + 1 == pool.len() {
+            if alive[j] && (j % 3 == 0 || j + 1 == pool.len()) {
                 dot_consistent(h).map_err(|e| v(format!("DOT export of handle {}: {}", j, e)))?;
             }
         }
@@ -266,6 +303,18 @@ pub fn run(ctx: &mut Ctx) -> Result<(), Violation> {
     });
     ctx.stage("random-histories", false, r)?;
 
+    // the caller lets handles go out of scope (and cleans more often)
+    let cases = ctx.tier.pick(4_000, 120_000);
+    let r = par_random(ctx, "dropping-handles", cases, 600, |tape, st| {
+        let mut t = Tape::new(tape);
+        let keep = 1 + t.choose(4);
+        let opsv = ops::gen_ops_with(&mut t, max_ops, 8);
+        record(&opsv, st);
+        st.class(&format!("keep-last-{}-handles", keep));
+        check_history_keep(&opsv, keep, Some(st))
+    });
+    ctx.stage("random-histories-dropping-old-handles", false, r)?;
+
     if ctx.tier == Tier::Thorough {
         let r = par_random(ctx, "long-histories", 3_000, 3000, |tape, st| {
             let mut t = Tape::new(tape);
@@ -283,7 +332,7 @@ pub fn run(ctx: &mut Ctx) -> Result<(), Violation> {
 pub fn replay(case: &Value) -> Check {
     match case["kind"].as_str() {
         Some("history") => match ops::ops_from_json(&case["ops"]) {
-            Some(o) => check_history(&o, None),
+            Some(o) => check_history_keep(&o, case["keep"].as_u64().unwrap_or(0) as usize, None),
             None => Err(Violation::new("unreadable replay case", case.clone())),
         },
         Some("shared-formulas") => crate::props::c13b::replay(case),
